@@ -372,6 +372,9 @@ type vfStreamSpec struct {
 	ReqTrailers    bool    `json:"reqTrailers"`    // the request ends with a trailers HEADERS frame
 	Trailers       bool    `json:"trailers"`       // response ends with a trailers HEADERS frame (else END_STREAM on DATA / headers)
 	BigHeaders     bool    `json:"bigHeaders"`     // request header block split into CONTINUATION frames
+	// HugeHeaders: the request carries 24 more fields of 1000 bytes and a last one (a header list of more than 16 KiB,
+	// in three frames)
+	HugeHeaders bool `json:"hugeHeaders,omitempty"`
 	Padded         bool    `json:"padded"`         // DATA frames carry padding
 	Order          []bool  `json:"order"`          // interleaving of request-body frames (true) and response frames (false)
 	Fault          string  `json:"fault"`          // "", rst-client, rst-server, refused, open (left open until the conn closes)
@@ -389,6 +392,9 @@ type vfExchange struct {
 	GoAwayAt   int            `json:"goAwayAt"`   // -1: none; else global frame position
 	GoAwayLast int            `json:"goAwayLast"` // index into streams opened so far (-1: last-stream-id 0)
 	GoAwayCode uint32         `json:"goAwayCode"`
+	// GoAwayGraceful: the GOAWAY is preceded by one that names the largest stream id and NO_ERROR (the usual graceful
+	// shutdown of net/http2 and grpc-go servers: announce first, then name the real last stream)
+	GoAwayGraceful bool `json:"goAwayGraceful,omitempty"`
 	Cuts       [2][]int       `json:"cuts"` // per direction: byte offsets where a Read/Write call ends
 	// TimeoutReads: ordinals (mod 16) of Read calls that hand over their bytes together with a timeout error, as a
 	// net.Conn does when a read deadline passes after part of the data arrived; the connection carries on
@@ -413,6 +419,7 @@ type vfAbsFrame struct {
 	end    bool
 	code   uint32
 	big    bool
+	huge   bool
 	padded bool
 	last   int // goaway: stream index whose id is last-stream-id (-1: 0)
 }
@@ -475,7 +482,7 @@ func vfStreamFrames(si int, s vfStreamSpec) []vfAbsFrame {
 	respBody := vfBodyWithTail(s.RespMsgs, s.RespTail)
 	var req, resp []vfAbsFrame
 	reqChunks := vfSplit(reqBody, s.ReqFrameSizes)
-	head := vfAbsFrame{stream: si, dir: 0, kind: "headers", big: s.BigHeaders, end: len(reqChunks) == 0 && !s.ReqEndEmpty && !s.ReqTrailers}
+	head := vfAbsFrame{stream: si, dir: 0, kind: "headers", big: s.BigHeaders || s.HugeHeaders, huge: s.HugeHeaders, end: len(reqChunks) == 0 && !s.ReqEndEmpty && !s.ReqTrailers}
 	for i, ch := range reqChunks {
 		req = append(req, vfAbsFrame{stream: si, dir: 0, kind: "data", data: ch, end: i == len(reqChunks)-1 && !s.ReqEndEmpty, padded: s.Padded})
 	}
@@ -606,6 +613,9 @@ func vfGlobalOrder(ex vfExchange) []vfAbsFrame {
 			if ex.GoAwayLast >= 0 && len(opened) > 0 {
 				last = opened[ex.GoAwayLast%len(opened)]
 			}
+			if ex.GoAwayGraceful {
+				out = append(out, vfAbsFrame{stream: -1, dir: 1, kind: "goaway-announce"})
+			}
 			out = append(out, vfAbsFrame{stream: -1, dir: 1, kind: "goaway", code: ex.GoAwayCode, last: last})
 			// streams opened after `last` are dead from here on; unopened ones never start
 			lastRank := -1
@@ -693,6 +703,12 @@ func vfBuildFrames(ex vfExchange) ([]vfWireFrame, map[int]uint32) {
 				if f.big {
 					fields = append(fields, [2]string{"x-big", strings.Repeat("abcdefghij", 40)})
 				}
+				if f.huge {
+					for k := 0; k < 24; k++ {
+						fields = append(fields, [2]string{fmt.Sprintf("x-pad-%d", k), strings.Repeat(string(rune('a'+k)), 1000)})
+					}
+					fields = append(fields, [2]string{"x-last", "end"})
+				}
 			} else {
 				fields = [][2]string{{":status", "200"}, {"content-type", s.RespCT}, {"x-resp-for", fmt.Sprint(f.stream)}, {"x-resp-multi", "r1"}, {"x-resp-multi", fmt.Sprintf("r2-%d", f.stream)}}
 			}
@@ -718,6 +734,9 @@ func vfBuildFrames(ex vfExchange) ([]vfWireFrame, map[int]uint32) {
 			}
 			_ = framers[f.dir].WriteGoAway(last, http2.ErrCode(f.code), []byte("bye"))
 			desc = fmt.Sprintf("goaway(last=%d,code=%d)", last, f.code)
+		case "goaway-announce":
+			_ = framers[f.dir].WriteGoAway(1<<31-1, http2.ErrCodeNo, nil)
+			desc = "goaway(last=max,code=0)"
 		case "settings":
 			_ = framers[f.dir].WriteSettings(http2.Setting{ID: http2.SettingMaxFrameSize, Val: 16384})
 		case "ping":
@@ -1043,8 +1062,18 @@ func vfC15Check(ex vfExchange) error {
 			if got := fmt.Sprint(tr.Request.Header.Values("X-Multi")); got != fmt.Sprintf("[a%d b]", so.stream) {
 				return verifkit.Violf("h2-request-line", "stream %d: the request header field x-multi was sent twice (a%d, b) but the trace has %s", so.stream, so.stream, got)
 			}
-			if s.BigHeaders && tr.Request.Header.Get("X-Big") != strings.Repeat("abcdefghij", 40) {
+			if (s.BigHeaders || s.HugeHeaders) && tr.Request.Header.Get("X-Big") != strings.Repeat("abcdefghij", 40) {
 				return verifkit.Violf("h2-request-line", "stream %d: header carried in CONTINUATION frames is missing", so.stream)
+			}
+			if s.HugeHeaders {
+				for k := 0; k < 24; k++ {
+					if got := tr.Request.Header.Get(fmt.Sprintf("X-Pad-%d", k)); got != strings.Repeat(string(rune('a'+k)), 1000) {
+						return verifkit.Violf("h2-request-line", "stream %d: of a header list of 25 kB the trace lacks (or alters) field x-pad-%d: %d bytes", so.stream, k, len(got))
+					}
+				}
+				if tr.Request.Header.Get("X-Last") != "end" {
+					return verifkit.Violf("h2-request-line", "stream %d: of a header list of 25 kB the trace lacks the last field", so.stream)
+				}
 			}
 			events := vfSummarise(tr.Events)
 			if len(events) == 0 || events[0].Kind != "req-start" {
@@ -1172,8 +1201,11 @@ func vfC15Classify(ex vfExchange) ([]string, bool) {
 			faults++
 			cl = append(cl, "fault:"+s.Fault)
 		}
-		if s.BigHeaders {
+		if s.BigHeaders || s.HugeHeaders {
 			cl = append(cl, "continuation")
+		}
+		if s.HugeHeaders {
+			cl = append(cl, "header-list>16KiB")
 		}
 	}
 	if ex.GoAwayAt >= 0 {
@@ -1231,6 +1263,7 @@ func vfGenExchange(t *rapid.T) vfExchange {
 		s.ReqTrailers = rapid.IntRange(0, 4).Draw(t, "reqTrailers") == 0
 		s.Trailers = rapid.Bool().Draw(t, "trailers")
 		s.BigHeaders = rapid.IntRange(0, 4).Draw(t, "bigHeaders") == 0
+		s.HugeHeaders = rapid.IntRange(0, 11).Draw(t, "hugeHeaders") == 0
 		s.Padded = rapid.IntRange(0, 3).Draw(t, "padded") == 0
 		for j := 0; j < 6; j++ {
 			s.Order = append(s.Order, rapid.Bool().Draw(t, "order"))
@@ -1254,7 +1287,7 @@ func vfGenExchange(t *rapid.T) vfExchange {
 			r := s
 			r.Attempt = 2
 			r.Fault = ""
-			r.BigHeaders = false
+			r.BigHeaders, r.HugeHeaders = false, false
 			ex.Streams = append(ex.Streams, r)
 		}
 	}
@@ -1268,6 +1301,7 @@ func vfGenExchange(t *rapid.T) vfExchange {
 		ex.GoAwayAt = rapid.IntRange(0, 15).Draw(t, "goAwayAt")
 		ex.GoAwayLast = rapid.IntRange(-1, 4).Draw(t, "goAwayLast")
 		ex.GoAwayCode = uint32(rapid.SampledFrom([]http2.ErrCode{http2.ErrCodeNo, http2.ErrCodeInternal, http2.ErrCodeEnhanceYourCalm}).Draw(t, "goAwayCode"))
+		ex.GoAwayGraceful = rapid.IntRange(0, 2).Draw(t, "goAwayGraceful") == 0
 	}
 	// cuts: inside frame headers (by construction) plus random ones
 	frames, _ := vfBuildFrames(ex)
